@@ -472,6 +472,18 @@ func checkIsolation(prop string, p *PipePlan, obs *PipeObs, out *RunOut) {
 		if len(pubs) == 0 {
 			continue
 		}
+		// copies of this datagram that were received (duplicates share the key)
+		copies := 0
+		for j := range p.Dels {
+			if o := &p.Dels[j]; o.Proto == d.Proto && seqOfDelivery(o) == seqOfDelivery(d) {
+				copies += recv[o.ID]
+			}
+		}
+		if len(pubs) > copies {
+			out.Violations = append(out.Violations, Violation{Prop: prop, Class: "isolation", Key: d.Proto + ": more messages carry a datagram's content than copies of it were received",
+				Msg: fmt.Sprintf("delivery %d (%s seq %d) was received %d time(s) but %d published messages carry its content: the message published for another datagram was built from this datagram's octets", d.ID, d.Proto, seqOfDelivery(d), copies, len(pubs))})
+			return
+		}
 		ref, err := refDecode(p, d, rc)
 		if ref == nil {
 			out.Violations = append(out.Violations, Violation{Prop: prop, Class: "isolation", Key: d.Proto + ": published but isolated decode yields nothing",
@@ -622,6 +634,29 @@ func checkMirror(prop string, p *PipePlan, obs *PipeObs, out *RunOut) {
 			out.Violations = append(out.Violations, Violation{Prop: prop, Class: "mirror-unexpected", Key: k.proto,
 				Msg: fmt.Sprintf("a %s packet from %v with a %d-octet payload was mirrored but no such datagram was received", k.proto, net.IP(k.src), len(k.payload)), })
 			_ = g
+			return
+		}
+	}
+}
+
+// checkProbes (C01 liveness): after the hostile phases every probe datagram of
+// a clean exporter must still be decoded and published - the workers are alive.
+func checkProbes(prop string, p *PipePlan, obs *PipeObs, out *RunOut) {
+	if obs.PanicVal != "" || obs.Exited || obs.HarnessErr != "" {
+		return
+	}
+	idx := indexPublished(obs)
+	recv := receivedCount(obs)
+	for i := range p.Dels {
+		d := &p.Dels[i]
+		if !d.Probe || recv[d.ID] == 0 || d.wantPub != 1 {
+			continue
+		}
+		out.Probes["liveness-probes"]++
+		k := fmt.Sprintf("%s/%d", d.Proto, seqOfDelivery(d))
+		if len(idx[k]) == 0 {
+			out.Violations = append(out.Violations, Violation{Prop: prop, Class: "probe-lost", Key: d.Proto,
+				Msg: fmt.Sprintf("after the hostile traffic a well-formed %s datagram (delivery %d) was received but never published: the pipeline no longer processes datagrams; log tail: %s", d.Proto, d.ID, tail(obs.Log, 400))})
 			return
 		}
 	}
